@@ -348,10 +348,21 @@ pub fn random_history(r: &mut Rng, len: usize, grid: bool) -> Vec<Op> {
 /// Random animator configuration over shape S in the exact regime.
 pub fn random_anim<S: Shape>(r: &mut Rng) -> AnimSpec {
     let mut spec = crate::checks::c08::gen_anim::<S>(r, &GenOpts { random_pos: true, rec: false, ..GenOpts::default() });
-    // distinct keyframe positions per property (the C04 statement's scope)
+    // distinct keyframe positions *per property* (the C04 statement's scope): several keyframes may share a
+    // position as long as no property is defined twice there
     for st in spec.states.iter_mut() {
         for t in st.iter_mut() {
-            t.kfs.dedup_by(|a, b| a.pos == b.pos);
+            for i in 1..t.kfs.len() {
+                for j in 0..i {
+                    if t.kfs[j].pos == t.kfs[i].pos {
+                        for f in 0..t.kfs[i].vals.len() {
+                            if t.kfs[j].vals[f].is_some() {
+                                t.kfs[i].vals[f] = None;
+                            }
+                        }
+                    }
+                }
+            }
         }
     }
     // one configuration in five has a very slow state: cycles of 2^12..2^18 s (still dyadic), so that
